@@ -327,8 +327,17 @@ fn workload_c(ctx: &Ctx, rep: &mut Report, uni: u64) {
         u.setup(move |env| VersionedTargetClient::new(env, &a).set_mode(&mode));
     }
     let hash = native_hash(&u.env);
+    // one time in four the probe target sits between a direct upgrade and its migration when the
+    // Upgrader is called: a request that names the version it reports now must still be refused,
+    // and no request may use the open window to finish somebody else's upgrade half-way
+    let pre_open = kind == "versioned-target" && rng.chance(1, 4) && u.upgrade_only(&addr).is_ok();
+    if pre_open {
+        rep.count("upgrader:target-window-already-open");
+    }
     let cur = version_of(&mut u, &addr);
-    let vclass = if mode == 2 { *rng.pick(&["same", "correct", "wrong", "correct-spelled-differently", "the-version-between-the-steps", "the-version-between-the-steps"]) } else { *rng.pick(&["same", "correct", "wrong", "correct-spelled-differently"]) };
+    let vclass = if pre_open {
+        *rng.pick(&["same", "same", "wrong"])
+    } else if mode == 2 { *rng.pick(&["same", "correct", "wrong", "correct-spelled-differently", "the-version-between-the-steps", "the-version-between-the-steps"]) } else { *rng.pick(&["same", "correct", "wrong", "correct-spelled-differently"]) };
     let aclass = *rng.pick(&["both", "both", "upgrade-only", "migrate-only", "none", "stranger-both"]);
     let dclass = *rng.pick(&["well-typed", "well-typed", "ill-typed", "wrong-arity", "empty"]);
     let migrate_sets: Vec<u8> = if mode == 2 { b"3.1.5".to_vec() } else { b"3.1.4".to_vec() };
@@ -433,8 +442,9 @@ fn workload_c(ctx: &Ctx, rep: &mut Report, uni: u64) {
         let (owner2, addr2) = (owner.clone(), addr.clone());
         let k2: &'static str = if kind == "versioned-target" { "versioned-target" } else { "gateway" };
         let again = u.probe(|u| do_migrate(u, &addr2, k2, Auth::Only(vec![owner2])));
-        if again.ok() {
-            rep.violation("failed-upgrader-call-left-window-open", "migrate by the owner succeeds after a failed Upgrader call".into());
+        // (a window that was open before the call is still open: the call left everything as it was)
+        if again.ok() != pre_open {
+            rep.violation(if pre_open { "failed-upgrader-call-closed-an-open-window" } else { "failed-upgrader-call-left-window-open" }, format!("after a failed Upgrader call the owner's migrate -> ok={} (window open before the call: {})", again.ok(), pre_open));
         }
     }
 }
